@@ -14,7 +14,7 @@ use std::collections::{BTreeMap, BTreeSet};
 
 pub const CHECK: Check = Check { id: "C09", level: "exploration", flavours: &["scaled", "prod"], run, replay };
 
-const RULE: &str = "cases = sequences of writer calls over {start(fresh | duplicate | empty | 65536-byte | 65537-byte name), \
+const RULE: &str = "cases = sequences of writer calls over {start(fresh | duplicate | empty | 65536-byte | 65537-byte ASCII name | name of 2- or 3-byte characters filling 65536 bytes exactly or exceeding them by one character), \
 append(id in {open, ended, never issued}, size, source in {exact, short, long, empty}), end(id...), add_file(...), flush, \
 finalize (also repeated / with files open), calls after finalize} x layer sets: every sequence up to length 3 (quick) / 4 \
 (thorough) over a 19-symbol abstract alphabet is enumerated, longer ones (up to 40 calls) are generated. Oracle: a model \
@@ -30,6 +30,9 @@ pub enum NameSel {
     Empty,
     Long65536,
     Long65537,
+    /// a name of 2- or 3-byte characters: `over` = false: the longest that fits in 65536 bytes (accepted),
+    /// true: the shortest that does not (65537 or 65538 bytes, far fewer characters than 65536)
+    LongMulti { three: bool, over: bool },
 }
 #[derive(Clone, Copy, Debug, PartialEq, Eq, Hash, Serialize, Deserialize)]
 pub enum IdSel {
@@ -104,6 +107,23 @@ impl Model {
                 let p = format!("X{}_", self.fresh);
                 let mut s = p.clone();
                 s.extend(std::iter::repeat('y').take(65537 - p.len()));
+                s
+            }
+            NameSel::LongMulti { three, over } => {
+                self.fresh += 1;
+                let (ch, w) = if three { ('\u{540d}', 3) } else { ('\u{e9}', 2) };
+                let mut s = format!("M{}_", self.fresh);
+                while s.len() + w <= 65536 {
+                    s.push(ch);
+                }
+                if over {
+                    s.push(ch);
+                } else {
+                    // fill up to exactly 65536 bytes
+                    while s.len() < 65536 {
+                        s.push('z');
+                    }
+                }
                 s
             }
         }
@@ -363,7 +383,7 @@ fn alphabet() -> Vec<Call> {
 }
 
 fn name_sel() -> impl Strategy<Value = NameSel> {
-    prop_oneof![8 => Just(NameSel::Fresh), 3 => any::<u16>().prop_map(NameSel::Dup), 2 => Just(NameSel::Empty), 1 => Just(NameSel::Long65536), 2 => Just(NameSel::Long65537)]
+    prop_oneof![8 => Just(NameSel::Fresh), 3 => any::<u16>().prop_map(NameSel::Dup), 2 => Just(NameSel::Empty), 1 => Just(NameSel::Long65536), 2 => Just(NameSel::Long65537), 2 => (any::<bool>(), any::<bool>()).prop_map(|(three, over)| NameSel::LongMulti { three, over })]
 }
 fn id_sel() -> impl Strategy<Value = IdSel> {
     prop_oneof![8 => any::<u16>().prop_map(IdSel::Open), 2 => any::<u16>().prop_map(IdSel::Ended), 1 => Just(IdSel::Never)]
